@@ -30,7 +30,12 @@ def main(argv):
     out = {'part': partname, 'shard': shard, 'violations': [], 'error': None, 'wall': 0.0, 'prelude': False}
     t0 = time.time()
 
+    corpus = {'dir': None}
+
     def finish(rec, code=0):
+        if corpus['dir']:
+            import shutil
+            shutil.rmtree(corpus['dir'], ignore_errors=True)
         out['rec'] = rec.export()
         out['wall'] = time.time() - t0
         with open(outpath, 'wb') as f:
@@ -86,8 +91,23 @@ def main(argv):
             rec.note('fuzz_shards')
             finish(rec)
 
-    args = [sys.argv[0], '-seed=%d' % (seed * 1000 + shard + 1), '-max_len=6000', '-len_control=20', '-timeout=120',
-            '-rss_limit_mb=4096', '-print_final_stats=0']
+    # Starting corpus: a few byte strings long enough for the strategy to decode at all (Hypothesis' decoder is not
+    # instrumented, so libFuzzer gets no gradient towards "long enough" from an empty corpus: a tree strategy decoded
+    # 0 of 6 000 executions when started empty).  The bytes are a pure function of the seed (hash chain); both an empty
+    # input and these are in the corpus.  The directory lives under /var/tmp only while the worker runs.
+    import hashlib
+    import tempfile
+    corpus['dir'] = tempfile.mkdtemp(prefix='mitxfuzz.', dir='/var/tmp')
+    block = hashlib.sha256(('%d/%d/%s' % (seed, shard, partname)).encode()).digest()
+    for k, size in enumerate((64, 256, 512, 1024, 2048, 4096, 4096, 4096)):
+        data = b''
+        while len(data) < size:
+            block = hashlib.sha256(block).digest()
+            data += block
+        with open(os.path.join(corpus['dir'], 'seed%d' % k), 'wb') as f:
+            f.write(data[:size] if k % 2 else bytes(b % 64 for b in data[:size]))   # small values decode as short choices
+    args = [sys.argv[0], '-seed=%d' % (seed * 1000 + shard + 1), '-max_len=8192', '-len_control=0', '-timeout=120',
+            '-rss_limit_mb=4096', '-print_final_stats=0', corpus['dir']]
     atheris.Setup(args, target)
     atheris.Fuzz()
     finish(rec)
